@@ -39,6 +39,24 @@ Semantics of the translation (rs2lean)
   checked indexing (`vecIdx`, `none` = index out of bounds).  `Result<T, E>` is `Except E T`.
 * `Duration` is an `Int` of whole nanoseconds (`as_secs`, `div`/`mul` by `u32` exact; `mul_f64` only for dyadic
   literal factors, see the ASSUMPTION at `durMulF64`).
+* MAPPING-TABLE ASSUMPTION for the std collections ("std `HashMap` / `VecDeque` behave as a map / a queue"; not derived
+  from the Rust library source): a `HashMap<K, V, S>` value is an `HMap K V` = association list with pairwise distinct
+  keys (`hmNew`, `hmInsert` returning the previous value, `hmRemove`, `hmGet`, `hmLen`, `hmClear`; the order of the
+  list is a representation detail, the hasher `S` plays no role); a `VecDeque<T>` value is a `VecDeque T` = list with
+  head = front (`vdNew`, `vdPushBack`, `vdPopFront` returning `None` on an empty queue, `vdLen`, `vdClear`).
+  A call that modifies a field of `&mut self` (`self.map.insert(k, v)`) becomes `let (map, r) := hmInsert map k v`
+  BEFORE the statement it occurs in; this is only accepted where that is the Rust evaluation order (the call is a
+  statement of its own or the head of the method chain that is the whole `let` initialiser / first `if` condition).
+  `x.unwrap()` of an `Option` is `← x` (`None` = panic).  The fields of `&mut self` that a function modifies are
+  parameters (value at entry) and their final values are the result (in declaration order); a constructor
+  (`-> Self`) yields the tuple of all fields.  Generic type parameters of an `impl` are Lean type variables.
+* BIT-MANIPULATING functions (marked `bits` in the translator's table): a value of type `u64` is a Lean `UInt64`
+  (not a range-checked `Int`); `& | ^ !` are `&&& ||| ^^^ ~~~`; `a << n` / `a >> n` are `u64Shl a n` / `u64Shr a n`
+  (`none` = shift amount not in `0 .. 64`, a panic); `+ - *` are `u64Add/u64Sub/u64Mul` (`none` = overflow panic);
+  `wrapping_mul`/`overflowing_mul(..).0` is the `UInt64` product; `x as u64` from another integer type is
+  `u64OfInt` (wrap-around), `u64 as T` is `cast .T (u64ToInt x)`; `trailing_zeros` is `u64Tz` (64 for 0).
+  All other integer types stay range-checked `Int`s.  `slice.get_unchecked(i)` (in `unsafe` code) is translated as a
+  CHECKED access: `none` = out of bounds = undefined behaviour, which the theorems exclude.
 * Enums used by the functions are regenerated from the Rust `enum` definition as Lean inductives.
 * Anything else makes rs2lean stop with an error naming file, line, function and construct.  It never guesses.
 -/
@@ -164,6 +182,89 @@ def durDiv (ns k : Int) : Option Int := if k = 0 then none else some (ns / k)
 
 /-- `d.mul(k)` / `d * k` for `k : u32`; panics beyond `Duration::MAX` -/
 def durMul (ns k : Int) : Option Int := if ns * k < 18446744073709551616000000000 then some (ns * k) else none
+
+/-- `u64 as T` before the truncation: the value -/
+def u64ToInt (x : UInt64) : Int := (x.toNat : Int)
+
+/-- `x as u64` from another integer type (wrap-around) -/
+def u64OfInt (x : Int) : UInt64 := UInt64.ofNat (x % 18446744073709551616).toNat
+
+/-- `bool as u64` -/
+def u64OfBool (b : Bool) : UInt64 := if b then 1 else 0
+
+/-- `a << n` on `u64`: panics iff the shift amount is not in `0 .. 64`; bits shifted out are dropped -/
+def u64Shl (a : UInt64) (n : Int) : Option UInt64 := if 0 ≤ n ∧ n < 64 then some (a <<< UInt64.ofNat n.toNat) else none
+
+/-- `a >> n` on `u64` (logical): panics iff the shift amount is not in `0 .. 64` -/
+def u64Shr (a : UInt64) (n : Int) : Option UInt64 := if 0 ≤ n ∧ n < 64 then some (a >>> UInt64.ofNat n.toNat) else none
+
+/-- `a + b` on `u64`: `none` = overflow panic -/
+def u64Add (a b : UInt64) : Option UInt64 := if a.toNat + b.toNat < 18446744073709551616 then some (a + b) else none
+
+/-- `a - b` on `u64`: `none` = overflow panic -/
+def u64Sub (a b : UInt64) : Option UInt64 := if b.toNat ≤ a.toNat then some (a - b) else none
+
+/-- `a * b` on `u64`: `none` = overflow panic -/
+def u64Mul (a b : UInt64) : Option UInt64 := if a.toNat * b.toNat < 18446744073709551616 then some (a * b) else none
+
+/-- `a.overflowing_mul(b)`: the wrapped product and whether it overflowed -/
+def u64OverflowingMul (a b : UInt64) : UInt64 × Bool := (a * b, decide (18446744073709551616 ≤ a.toNat * b.toNat))
+
+/-- `x.trailing_zeros()` (64 for 0) -/
+def u64Tz (x : UInt64) : Int := (((List.range 64).find? (fun i => x.toNat.testBit i)).getD 64 : Nat)
+
+/-- `x.leading_zeros()` (64 for 0) -/
+def u64Lz (x : UInt64) : Int := (((List.range 64).find? (fun i => x.toNat.testBit (63 - i))).getD 64 : Nat)
+
+/-- `x.count_ones()` -/
+def u64Popcnt (x : UInt64) : Int := (((List.range 64).filter (fun i => x.toNat.testBit i)).length : Nat)
+
+/-- `std::collections::HashMap<K, V, S>` (see the MAPPING-TABLE ASSUMPTION in the header): association list, distinct keys -/
+abbrev HMap (K V : Type) : Type := List (K × V)
+
+/-- `HashMap::new()` / `HashMap::with_hasher(..)` -/
+def hmNew {K V : Type} : HMap K V := []
+
+/-- `m.get(&k)` (the reference is the value) -/
+def hmGet {K V : Type} [DecidableEq K] : HMap K V → K → Option V
+  | [], _ => none
+  | (k', v) :: rest, k => if k' = k then some v else hmGet rest k
+
+/-- `m.insert(k, v)`: the new map and the returned previous value (`None` = the key was absent) -/
+def hmInsert {K V : Type} [DecidableEq K] (m : HMap K V) (k : K) (v : V) : HMap K V × Option V :=
+  match hmGet m k with
+  | some old => (m.map (fun e => if e.1 = k then (e.1, v) else e), some old)
+  | none => (m ++ [(k, v)], none)
+
+/-- `m.remove(&k)`: the new map and the returned removed value -/
+def hmRemove {K V : Type} [DecidableEq K] (m : HMap K V) (k : K) : HMap K V × Option V :=
+  (m.filter (fun e => decide (e.1 ≠ k)), hmGet m k)
+
+/-- `m.len()` -/
+def hmLen {K V : Type} (m : HMap K V) : Int := (m.length : Int)
+
+/-- `m.clear()` -/
+def hmClear {K V : Type} (_ : HMap K V) : HMap K V := []
+
+/-- `std::collections::VecDeque<T>` (see the MAPPING-TABLE ASSUMPTION in the header): list, head = front -/
+abbrev VecDeque (T : Type) : Type := List T
+
+/-- `VecDeque::new()` -/
+def vdNew {T : Type} : VecDeque T := []
+
+/-- `q.push_back(x)` -/
+def vdPushBack {T : Type} (q : VecDeque T) (x : T) : VecDeque T := q ++ [x]
+
+/-- `q.pop_front()`: the new queue and the returned element (`None` = the queue was empty) -/
+def vdPopFront {T : Type} : VecDeque T → VecDeque T × Option T
+  | [] => ([], none)
+  | x :: rest => (rest, some x)
+
+/-- `q.len()` -/
+def vdLen {T : Type} (q : VecDeque T) : Int := (q.length : Int)
+
+/-- `q.clear()` -/
+def vdClear {T : Type} (_ : VecDeque T) : VecDeque T := []
 
 /-- `s.len()` of a `&str`: its length in UTF-8 BYTES (not chars) -/
 def strLen (s : List Char) : Int := ((s.map Char.utf8Size).sum : Nat)
